@@ -56,7 +56,8 @@ def fresh_atom(base):
 class AbsMap:
     """total map Atom -> real; reads and writes build z3 select/store terms"""
 
-    def __init__(self, arr=None, name='map', default=None):
+    def __init__(self, arr=None, name='map', default=None, focus=None):
+        self.focus = focus      # the arbitrary-but-fixed key through which element-wise consumers (comprehensions) see the map
         if arr is None:
             if default is not None:
                 arr = z3.K(z3.IntSort(), S._rat(default))
@@ -72,6 +73,27 @@ class AbsMap:
 
     def get(self, k, d=None):
         return self[k]
+
+    def items(self):
+        """element-wise view: exactly the focus element.  Sound for consumers that treat elements independently (dict/list comprehensions
+        without cross-iteration state): the result at an arbitrary key is determined by that key's element alone, and a key that was
+        never written reads as the default"""
+        if self.focus is None:
+            raise S.Unsupported('iteration over an abstract map without a focus key')
+        return [(self.focus, self[self.focus])]
+
+    def values(self):
+        return AbsValues(self)
+
+
+class AbsValues:
+    """the value view of an abstract map: only an abstract `sum` may consume it"""
+
+    def __init__(self, m):
+        self.m = m
+
+    def __iter__(self):
+        raise S.Unsupported('iteration over the values of an abstract map')
 
 
 _REC = {}
@@ -101,11 +123,25 @@ def rsum2(name, term):
     return f
 
 
+def rsumN(name, nparams, term):
+    """ghost sum with integer parameters: Sfun(0,*p)=0, Sfun(i+1,*p)=Sfun(i,*p)+term(i,*p)"""
+    nm = S.cur().fresh(name)
+    if nm in _REC:
+        return _REC[nm]
+    f = z3.RecFunction(nm, *([z3.IntSort()] * (1 + nparams)), z3.RealSort())
+    _REC[nm] = f
+    i = z3.Int(S.cur().fresh('i'))
+    ps = [z3.Int(S.cur().fresh('p')) for _ in range(nparams)]
+    z3.RecAddDefinition(f, [i] + ps, z3.If(i <= 0, z3.RealVal(0), f(i - 1, *ps) + term(i - 1, *ps)))
+    return f
+
+
 class Opaque:
     """an iterable that must not be materialised: only a cut loop with an `element` hook may consume it"""
 
-    def __init__(self, what):
+    def __init__(self, what, owner=None):
         self.what = what
+        self.owner = owner      # lets a loop contract recognise the iterable it was written for
 
     def __iter__(self):
         raise S.Unsupported('iteration over an abstract %s outside a cut loop' % self.what)
